@@ -535,7 +535,8 @@ func (d *Data) GetLabelsByThreshold(ctx *datastore.VersionedCtx, i IndexType, mi
 
 	// Iterate through sorted size list until we get what we need.
 	shortCircuitErr := fmt.Errorf("Found data, aborting.")
-	lsz := make(LabelSizes, nReturns)
+	// the number comes from the query string: allocate for what is found, not for what was asked.
+	lsz := LabelSizes{}
 	rank := 0
 	saved := 0
 	err = store.ProcessRange(ctx, begTKey, endTKey, nil, func(chunk *storage.Chunk) error {
@@ -550,7 +551,7 @@ func (d *Data) GetLabelsByThreshold(ctx *datastore.VersionedCtx, i IndexType, mi
 			return shortCircuitErr
 		}
 		if rank >= offset && rank < offset+nReturns {
-			lsz[saved] = LabelSize{Label: label, Size: sz}
+			lsz = append(lsz, LabelSize{Label: label, Size: sz})
 			saved++
 			if saved == nReturns {
 				return shortCircuitErr
